@@ -77,7 +77,7 @@ CHECKS = {
     "C10": ("exploration",
             "programs with many indexing / #unwrap sites are compiled once by the real CLI and executed once per (site, runtime index) selected through "
             "the environment; the monitor sees exit status, fault message, markers before/after the access and the bytes of the indexed object between "
-            "guard words as they are when the process exits (atexit dump) or right after an in-range access; literal indices are judged at compile time.",
+            "guard words as they are when the process exits (atexit dump) or right after an in-range access; literal indices are judged at compile time; constant-but-not-literal indices must be rejected or checked at run time; enums with discriminants packed into the automatic range are unwrapped as every (actual, requested) pair.",
             "expected memory images use the natural struct layout (validated by C17); fault text must contain 'index out of bounds' / mention unwrap",
             "runtime monitoring: guarded-memory watch + event-marker ordering oracle over per-site executions of the compiled program",
             "cli", "4/C10"),
@@ -107,7 +107,7 @@ CHECKS = {
             "every corpus program and near-valid mutants of them (identifier swaps, := -> ::, type/literal/operator changes, deleted definitions, undefined "
             "names) are compiled twice: by `probe pipeline` (library level with track_unsafe_to_compile on: error diagnostics, unsafe flag, whether a type "
             "error names an expression) and by the real CLI (exit status, object file, internal errors, gcc link); the four claims of the statement are "
-            "checked on each input. Crashes of the front end are counted and left to C06.",
+            "checked on each input; directed near-valid programs add (a) a comptime block that must be evaluated during type checking and reaches a function with a reported error in the same or an imported file (the function prints a marker when the compiler executes it) and (b) compound assignments whose value does not go with the operator. Crashes of the front end are counted and left to C06.",
             "the probe's driver mirrors main.rs; driver disagreements are inconclusive; linking ignores unresolved externs of snippets",
             "runtime monitoring: cross-checked observations (hooked library run vs. CLI process) of each compilation",
             "probe+cli", "4/C07"),
@@ -146,8 +146,8 @@ CHECKS = {
             "cli", "4/C15"),
     "C21": ("exploration",
             "corpus programs, near-valid mutants and generated multi-file trees (valid and invalid, with and without core) are each built three times by fresh CLI "
-            "processes (ASLR on) and three times by `probe pipeline` with the files supplied in permuted orders; object bytes and the full diagnostic output "
-            "are compared for equality.",
+            "processes (ASLR on; the third one in a directory that already holds a larger object of another program under the same name) and three times by `probe pipeline` with the files supplied in permuted orders; a struct-cast program is built six times; object bytes and the full diagnostic output "
+            "are compared for equality; sampled builds run under memcheck with definedness tracking.",
             "timing fragments of the CLI output are masked; the CLI itself has no way to take a file list, so permuted orders go through the probe driver",
             "runtime monitoring: repeated-execution differential monitor (object hash + diagnostics) across fresh processes, dirty output directories and file orders + valgrind memcheck (definedness of the object bytes) on a sample",
             "probe+cli", "4/C21"),
